@@ -108,7 +108,8 @@ Record Inv (cf : cfg) (s : state) : Prop := {
   v_errs : NoDup (errs s) /\ incl (errs s) (g_finished s);
   v_limit : eff_limit cf <> 0 -> length (members s) <= eff_limit cf;
   v_alive : s_alive s = rx_open (ready s);
-  v_none : length (filter (fun m => is_none (m_id m)) (members s)) <= (if w_ian (w s) then 1 else 0)
+  v_none : length (filter (fun m => is_none (m_id m)) (members s)) <= (if w_ian (w s) then 1 else 0);
+  v_serr : s_err s <> None -> members s = [] /\ s_alive s = false
 }.
 
 (** ** List and trace helpers *)
